@@ -87,6 +87,17 @@ class Holder:
         return ('holder', [d.result for d in find_tasks_in_param(self.v)])
 
 
+@labtech.task
+class Defaulted:      # parameters with non-trivial defaults: values that are == the default but of another type / sign must still count
+    scale: object = 1.0
+    flag: object = 0
+    name: object = ''
+    items: object = ()
+
+    def run(self):
+        return 0
+
+
 @labtech.task(cache=None)
 class NoCache:
     v: object = None
@@ -178,6 +189,53 @@ def same(a, b):
     return a == b
 
 
+def task_bearing_shapes():
+    """Parameter values whose containers hold tasks in the shapes that stress dependency discovery: sibling containers of
+    equal size, containers of containers, the same object twice, equal-but-distinct objects, deep chains."""
+    L = lambda i: Leaf(i)      # noqa: E731
+    shared = Leaf(99)
+    yield {'train': {'x': L(1), 'y': L(2)}, 'test': {'x': L(3), 'y': L(4)}}
+    yield [{'m': L(1)}, {'m': L(2)}, {'m': L(3)}]
+    yield ({'a': L(1), 'b': L(2)}, {'a': L(3), 'b': L(4)}, {'a': L(5), 'b': L(6)})
+    yield {'p': [L(1), L(2)], 'q': [L(3), L(4)], 'r': [L(5), L(6)]}
+    yield [[L(1)], [L(2)], [L(3)], [L(4)]]
+    yield [(L(1), L(2)), (L(3), L(4))]
+    yield {'a': {'b': {'c': {'d': L(1)}}}, 'e': {'b': {'c': {'d': L(2)}}}}
+    yield [shared, shared, {'k': shared}, (shared,)]
+    yield [L(7), L(7), L(7)]
+    yield {'k1': {'x': L(1)}, 'k2': {'x': L(1)}, 'k3': {'y': L(2)}}
+    yield [{'x': L(1), 'y': 1}, {'x': 2, 'y': L(2)}, {'x': L(3), 'y': L(4)}]
+    yield ({}, {'z': L(1)}, {}, {'z': L(2)})
+    yield [Holder(v=[{'m': L(1)}, {'m': L(2)}]), {'h': Holder(v={'a': {'q': L(3)}, 'b': {'q': L(4)}})}]
+
+
+def check_discovery():
+    """find_tasks_in_param / get_direct_dependencies against the independent spec, and end to end: a task whose parameter has
+    that shape can read the result of every task inside it."""
+    import tempfile as _tf
+    n = 0
+    for v in task_bearing_shapes():
+        n += 1
+        got = immutable_param_value('p', v)
+        found = find_tasks_in_param(got)
+        want = spec_tasks_in(got)
+        if [id(t) for t in found] != [id(t) for t in want]:
+            return f'find_tasks_in_param finds {len(found)} task object(s) in {v!r}, the parameter holds {len(want)}: missing {[repr(t) for t in want if id(t) not in {id(x) for x in found}][:3]}', n
+        h = Holder(v=v)
+        deps = get_direct_dependencies(h)
+        if sorted(map(id, deps)) != sorted({id(t) for t in spec_tasks_in(h.v)}):
+            return f'get_direct_dependencies(Holder(v={v!r})) returns {len(deps)} object(s), the parameter holds {len({id(t) for t in spec_tasks_in(h.v)})} distinct task objects', n
+        with _tf.TemporaryDirectory() as d:
+            lab = labtech.Lab(storage=d, runner_backend='serial', continue_on_failure=False)
+            try:
+                res = lab.run_tasks([h], disable_progress=True, disable_top=True)
+            except BaseException as ex:    # noqa
+                return f'run_tasks([Holder(v={v!r})]) raised {type(ex).__name__}: {str(ex)[:200]} (a dependency was not finished / not handed over before the task ran)', n
+            if h not in res:
+                return f'run_tasks([Holder(v={v!r})]) returned no result for the task', n
+    return None, n
+
+
 def check_c15(tier):
     n = 0
     leaves = SCALARS + [Leaf(1), Leaf((1, 2)), Holder(v=[Leaf(1), Leaf(1)])]
@@ -258,6 +316,10 @@ def check_c15(tier):
             return f'get_direct_dependencies(Holder(v={v!r})) misses/duplicates instances', n
     if Leaf(1) == Leaf2(1):
         return 'tasks of different types compare equal', n
+    why, m = check_discovery()
+    n += m
+    if why:
+        return why, n
     return None, n
 
 
@@ -285,6 +347,8 @@ def distinct_tasks():
         out.append(Holder(v=v))
         out.append(Holder(w=v))
     out += [Leaf(v) for v in vals[:14]] + [Leaf2(v) for v in vals[:6]] + [LeafX(v) for v in vals[:6]]
+    out += [Defaulted()] + [Defaulted(scale=v) for v in (1, True, 1.5, None, '1.0')] + [Defaulted(flag=v) for v in (False, 0.0, -0.0, None, '0')] \
+        + [Defaulted(name=v) for v in (None, (), 'x')] + [Defaulted(items=v) for v in ([1], {}, None, '')]
     return out
 
 
@@ -308,7 +372,7 @@ def check_c07(tier):
     n = len(ts)
     seen = {}
     for t, k in zip(ts, ks):
-        if k in seen and not same(seen[k], t) and not (seen[k] == t and all(same(getattr(seen[k], f), getattr(t, f)) for f in ('v', 'w') if hasattr(t, f))):
+        if k in seen and not same_task(seen[k], t):
             a, b = seen[k], t
             # Python equates 1/True/1.0, 0.0/-0.0 as VALUES; the property speaks of distinct parameter values incl. their type
             return f'distinct tasks share the cache key {k}: {a!r} and {b!r}', n
@@ -334,6 +398,12 @@ def check_c07(tier):
                 st.exists(t.cache_key)
             except Exception as ex:     # noqa
                 return f'LocalStorage rejects the key of {t!r}: {ex}', n
+    # the key a worker process stores under is the key the caller looks up, also when the task types live in the __main__
+    # script and the first run uses the spawn backend (the worker re-imports the script under another module name)
+    import replay.c06 as C6
+    r = C6.explore('quick')
+    if r.get('reproduced'):
+        return 'keys across processes: ' + r.get('summary', ''), n
     return None, n
 
 
@@ -405,7 +475,7 @@ def main():
     ap.add_argument('--tier', default='quick')
     a = ap.parse_args()
     import replay.values as V          # classes must live in an importable module (their module name is part of the cache key)
-    fn = {'C15': V.check_c15, 'C07': V.check_c07, 'C09': V.check_c09}[a.prop]
+    fn = {'C15': V.check_c15, 'C07': V.check_c07, 'C09': V.check_c09, 'discovery': lambda tier: V.check_discovery()}[a.prop]
     try:
         if 'dict-never-reads-as-task' in a.obligation:
             why, n = V.check_reserved(), 2
